@@ -189,7 +189,36 @@ impl Inst {
     }
 }
 
+/// instants at +-2^p units since 0001-01-01 or since 1970-01-01 (p in 31, 32, 52, 53, 62, 63,
+/// 64; units ns, us, ms, s, min): thresholds of any 32/53/64-bit intermediate, whatever unit
+/// and epoch it is held in. Returned with a small displacement around the threshold.
+pub fn pow2_instant(u: &mut Unstructured) -> Result<Option<i128>> {
+    let p = *u.choose(&[31u32, 32, 52, 53, 62, 63, 64])?;
+    let unit: i128 = *u.choose(&[1i128, 1_000, 1_000_000, 1_000_000_000, 60_000_000_000])?;
+    let epoch: i128 = if u.coin(1, 2)? { 0 } else { cal::DAYS_TO_1970 as i128 * tl::DAY_NS };
+    let sign: i128 = if u.coin(1, 2)? { 1 } else { -1 };
+    let base = epoch + sign * (1i128 << p) * unit;
+    let delta: i128 = match u.below(6)? {
+        0 => 0,
+        1 => u.range_i64(-2, 2)? as i128,
+        2 => u.range_i64(-1_000_000_000, 1_000_000_000)? as i128,
+        3 => u.range_i64(-86_400_000_000_000, 86_400_000_000_000)? as i128,
+        4 => u.range_i64(-2, 2)? as i128 * unit,
+        _ => u.range_i64(-90_000, 90_000)? as i128 * 1_000_000_000,
+    };
+    let i = base + delta;
+    Ok(if tl::representable(i) { Some(i) } else { None })
+}
+
 pub fn inst(u: &mut Unstructured, margin: i64) -> Result<Inst> {
+    if u.coin(1, 12)? {
+        if let Some(i) = pow2_instant(u)? {
+            let v = Inst::from_i(i);
+            if v.day >= cal::MIN_DAY + margin && v.day <= cal::MAX_DAY - margin {
+                return Ok(v);
+            }
+        }
+    }
     Ok(Inst { day: day_inside(u, margin)?, ns: day_ns(u)? })
 }
 
